@@ -98,13 +98,18 @@ def run(ctx: core.Ctx) -> core.Report:
     loop = vloop.new_loop()
     ops, post = [], []
     try:
-        for i in range(ctx.n(250, 4000)):
+        nsmall = 33
+        for i in range(nsmall + ctx.n(250, 4000)):
             k = rng.randrange(0, 9) if rng.random() < 0.7 else rng.randrange(0, 3)
+            if i < nsmall:
+                k = 2   # every small payload length once, followed by a second message (see C01: one particular length)
             hs = []
-            for _ in range(k):
+            for j in range(k):
                 h = gen_header(rng)
                 r = rng.random()
-                if r < 0.15:
+                if i < nsmall and j == 0:
+                    h["payload"] = gen.rbytes(rng, i)
+                elif r < 0.15:
                     h["payload"] = gen.rbytes(rng, rng.choice([0, 0, 1, 8]))
                 elif r < 0.25:
                     h["payload"] = gen.rbytes(rng, rng.choice([1023, 1024, 4095, 4096]))
